@@ -22,6 +22,10 @@
      [BankRead k] is a device read of slot k of a selector-addressed register bank (a parameter
      access of the application, no part of the acquisition protocol), [BankPoke k v] is the
      environment: the device's own memory of slot k changes to v behind the host's back.
+     A description may also keep TLParamsLocked on the HOST side (an <Integer> with an immediate <Value>,
+     a variable of the GenApi context): setting it is [HostTL b], no device access; for the protocol
+     it is the same step as [SetTLParamsLocked b] ("TLParamsLocked set to 1 before AcquisitionStart"):
+     [d_locked] is the value TLParamsLocked was given last, wherever the description keeps it.
    Nothing here mentions Camera, its methods or its failure handling. *)
 From Cam Require Export Outcome.
 
@@ -30,12 +34,16 @@ Inductive effect :=
 | EnableStreaming | SetTLParamsLocked (b : bool) | AcqStart | AcqStop
 | LoopStart | LoopStop | DisableStreaming | CtrlClose | StrmClose
 | GenApiRead                                   (* device read of the TLParamsLocked register *)
+| HostTL (b : bool)                            (* host: TLParamsLocked := b where it is a variable of the context *)
 | CopyTL (b : bool)                            (* write of the <pValueCopy> mirror of TLParamsLocked *)
 | BankRead (k : Z)                             (* device read of slot k of the register bank *)
 | BankPoke (k v : Z)                           (* environment: the device's bank slot k becomes v *)
-| LoadCtxt (tl start stop copy : bool)         (* host: camera.ctxt = Some(description); which of the
+| LoadCtxt (tl start stop copy host stop0 : bool)
+                                               (* host: camera.ctxt = Some(description); which of the
                                                   three SFNC nodes it defines with the right interface,
-                                                  and whether TLParamsLocked has a <pValueCopy> *)
+                                                  whether TLParamsLocked has a <pValueCopy>, whether it is a
+                                                  host-side variable, whether AcquisitionStop's
+                                                  CommandValue is 0 (else 1) *)
 | ClearCache.                                  (* host: cached register values dropped *)
 
 Definition effect_eqb (a b : effect) : bool :=
@@ -47,10 +55,11 @@ Definition effect_eqb (a b : effect) : bool :=
   | ClearCache, ClearCache => true
   | SetTLParamsLocked x, SetTLParamsLocked y => Bool.eqb x y
   | CopyTL x, CopyTL y => Bool.eqb x y
+  | HostTL x, HostTL y => Bool.eqb x y
   | BankRead j, BankRead k => j =? k
   | BankPoke j v, BankPoke k w => (j =? k) && (v =? w)
-  | LoadCtxt a1 a2 a3 a4, LoadCtxt b1 b2 b3 b4 =>
-      Bool.eqb a1 b1 && Bool.eqb a2 b2 && Bool.eqb a3 b3 && Bool.eqb a4 b4
+  | LoadCtxt a1 a2 a3 a4 a5 a6, LoadCtxt b1 b2 b3 b4 b5 b6 =>
+      Bool.eqb a1 b1 && Bool.eqb a2 b2 && Bool.eqb a3 b3 && Bool.eqb a4 b4 && Bool.eqb a5 b5 && Bool.eqb a6 b6
   | _, _ => false
   end.
 
@@ -83,7 +92,7 @@ Definition dstep (d : dev) (e : effect) : dev :=
   | DisableStreaming => {| d_copen := d_copen d; d_sopen := d_sopen d; d_enabled := false;
                            d_locked := d_locked d; d_acq := d_acq d; d_alive := d_alive d;
                  d_copy := d_copy d |}
-  | SetTLParamsLocked b => {| d_copen := d_copen d; d_sopen := d_sopen d; d_enabled := d_enabled d;
+  | SetTLParamsLocked b | HostTL b => {| d_copen := d_copen d; d_sopen := d_sopen d; d_enabled := d_enabled d;
                               d_locked := b; d_acq := d_acq d; d_alive := d_alive d;
                  d_copy := d_copy d |}
   | AcqStart => {| d_copen := d_copen d; d_sopen := d_sopen d; d_enabled := d_enabled d;
@@ -100,7 +109,7 @@ Definition dstep (d : dev) (e : effect) : dev :=
                  d_copy := d_copy d |}
   | CopyTL b => {| d_copen := d_copen d; d_sopen := d_sopen d; d_enabled := d_enabled d;
                   d_locked := d_locked d; d_acq := d_acq d; d_alive := d_alive d; d_copy := b |}
-  | GenApiFetch | GenApiRead | LoadCtxt _ _ _ _ | ClearCache | BankRead _ | BankPoke _ _ => d
+  | GenApiFetch | GenApiRead | LoadCtxt _ _ _ _ _ _ | ClearCache | BankRead _ | BankPoke _ _ => d
   end.
 
 Definition replay_from (d : dev) (t : list effect) : dev := fold_left dstep t d.
@@ -110,12 +119,12 @@ Definition replay (t : list effect) : dev := replay_from dev0 t.
 Definition allowed (d : dev) (e : effect) : bool :=
   match e with
   | EnableStreaming => negb (d_alive d)
-  | SetTLParamsLocked true => d_enabled d && negb (d_alive d)
+  | SetTLParamsLocked true | HostTL true => d_enabled d && negb (d_alive d)
   | AcqStart => d_enabled d && d_locked d && negb (d_alive d)
   | LoopStart => d_enabled d && d_locked d && d_acq d && negb (d_alive d)
   | LoopStop => d_alive d
   | AcqStop => negb (d_alive d)
-  | SetTLParamsLocked false => negb (d_alive d) && negb (d_acq d)
+  | SetTLParamsLocked false | HostTL false => negb (d_alive d) && negb (d_acq d)
   | DisableStreaming => negb (d_alive d) && negb (d_acq d) && negb (d_locked d)
   | CopyTL true => d_enabled d && negb (d_alive d) && d_locked d
   | CopyTL false => negb (d_alive d) && negb (d_acq d) && negb (d_locked d)
@@ -151,3 +160,11 @@ Definition streaming_config (d : dev) : Prop :=
    "EnableStreaming before AcquisitionStart". *)
 Definition since (e1 e0 : effect) (p : list effect) : Prop :=
   exists p1 p2, p = p1 ++ e1 :: p2 /\ ~ In e0 p2.
+
+(* TLParamsLocked is written through its register or, where the description keeps it on the host, as a
+   variable of the context. *)
+Definition tl_write (b : bool) (e : effect) : Prop := e = SetTLParamsLocked b \/ e = HostTL b.
+
+(* "TLParamsLocked was given the value b, and not the other value since" *)
+Definition tl_since (b : bool) (p : list effect) : Prop :=
+  exists p1 e p2, p = p1 ++ e :: p2 /\ tl_write b e /\ forall e', In e' p2 -> ~ tl_write (negb b) e'.
